@@ -2,6 +2,14 @@ import HcModel.Drv.Tlv8
 import HcModel.Drv.Pair
 import HcModel.Drv.Http
 import HcModel.Drv.Storage
+import HcModel.Drv.Spec
+import HcModel.Drv.ConnWrite
+import HcModel.Drv.ConnRead
+import HcModel.Drv.Characteristic
+import HcModel.Drv.Ids
+import HcModel.Drv.Framing
+import HcModel.Drv.PinXhm
+import HcModel.Drv.Config
 /-
   Line-protocol driver of the executable models: one operation per input line
   (`<module> <op> <args…>`), one result per output line. Core Lean only, so it links as `lean_exe`.
@@ -14,6 +22,15 @@ def step (line : String) : String :=
   | "pairsetup" :: rest => Hc.Drv.Pair.handleSetup rest
   | "pairverify" :: rest => Hc.Drv.Pair.handleVerify rest
   | "http" :: rest => Hc.Drv.Http.handle rest
+  | "connwrite" :: rest => Hc.Drv.ConnWrite.handle rest
+  | "connread" :: rest => Hc.Drv.ConnRead.handle rest
+  | "char" :: rest => Hc.Drv.Characteristic.handle rest
+  | "ids" :: rest => Hc.Drv.Ids.handle rest
+  | "frame" :: rest => Hc.Drv.Framing.handle rest
+  | "pin" :: rest => Hc.Drv.PinXhm.handlePin rest
+  | "xhm" :: rest => Hc.Drv.PinXhm.handleXhm rest
+  | "config" :: rest => Hc.Drv.Config.handle rest
+  | "spec" :: rest => Hc.Drv.Spec.handle rest
   | "storage" :: rest => Hc.Drv.Storage.handle rest
   | "fs" :: rest => Hc.Drv.Storage.handleFs rest
   | _ => "bad-op"
